@@ -265,7 +265,13 @@ func (eng *Engine) runLemma(file string, d *lemmaDef) (qs []*Query, trusted []st
 			}
 			x.oblPrefix = "lemma." + file + "." + d.name + fmt.Sprintf("/step%d", steps)
 			var got Val
+			x.lastCalleeSnaps = nil
 			x.applyContract(st, c, fn, sig, args, resT, key, argTs, func(st2 *State, r Val) { got = r })
+			// intermediate states the callee's contract names (rely ... snap / presnap) are visible to the
+			// lemma under the same labels (those of the latest call)
+			for label, h := range x.lastCalleeSnaps {
+				snaps[label] = h
+			}
 			x.oblPrefix = "lemma." + file + "." + d.name
 			if resName != "" && resT != nil {
 				tvs := resultTVs(got, resT)
